@@ -276,6 +276,10 @@ type Framer struct {
 	// unfinished HEADERS/CONTINUATION.
 	lastHeaderStream uint32
 
+	// lastReadHeader is the header of the frame ReadFrame looked at last,
+	// also when it returned an error instead of the frame.
+	lastReadHeader FrameHeader
+
 	maxReadSize uint32
 	headerBuf   [frameHeaderLen]byte
 
@@ -502,6 +506,7 @@ func (fr *Framer) ReadFrame() (Frame, error) {
 	if err != nil {
 		return nil, err
 	}
+	fr.lastReadHeader = fh
 	if fh.Length > fr.maxReadSize {
 		return nil, ErrFrameTooLarge
 	}
